@@ -34,7 +34,7 @@ Proof.
 Qed.
 Lemma Blk_mem wm o l cm s : RevBlk.Blk wm o l cm s -> Forall mem_only (map inj s).
 Proof.
-  induction 1 as [wm o cm|wm o cm H|wm o l H|wm o l cm j s1 s2 H1 H2 H3 B1 IH1 B2 IH2]; rewrite ?map_app;
+  induction 1 as [wm o cm|wm o cm|wm o cm H|wm o l cm H H'|wm o l cm j s1 s2 H1 H2 H3 B1 IH1 B2 IH2]; rewrite ?map_app;
     repeat (apply Forall_app; split); try apply adj_mem; try apply loop1_mem; try assumption;
     try (destruct wm; unfold RevBlk.wmop, RevBlk.tail0; repeat constructor); repeat constructor.
 Qed.
